@@ -145,6 +145,10 @@ class Spec:
         if p.is_zero():
             raise ModelError("division by zero")
         self.dom.inv_args[p.key()] = p
+        # every division of the spectral algebra is logged with a certificate that the denominator cannot vanish at any
+        # frequency; the value algebra below may cancel (H / H -> 1), the log is what the 'no division by a spectrum that
+        # may vanish' clause reads
+        self.dom.div_events.append((p, self.dom.poly_pos(p)))
         return p.inverse()
 
     def __truediv__(self, o):
@@ -194,7 +198,9 @@ class Spec:
             if nn(b - a):
                 return b if name == "max" else a
             ka, kb = sorted((a.key(), b.key()), key=repr)
-            return Poly.atom(("s" + name, ka, kb))
+            at = ("s" + name, ka, kb)
+            self.dom.minmax_args[at] = (a, b)
+            return Poly.atom(at)
         try:
             return self._mk(_ew(one, self.polys, p))
         except ValueError as e:
@@ -282,21 +288,32 @@ class ISpec(Spec):
     def __neg__(self):
         raise Unsupported("arithmetic on an un-materialised ifft2 result")
 
-    __abs__ = __pow__ = conjugate = conj = lambda self, *a: (_ for _ in ()).throw(
+    __pow__ = conjugate = conj = lambda self, *a: (_ for _ in ()).throw(
         Unsupported("operation on an un-materialised ifft2 result"))
 
-    def real_array(self):
+    def part_array(self, tag):
         out = mk(self.shape, "real")
         for b in itertools.product(*[range(s) for s in self.polys.shape]):
-            out[(slice(None), slice(None)) + b] = np.asarray(re_ifft2_array(self.polys[b], self.fshape), dtype=object)
+            out[(slice(None), slice(None)) + b] = np.asarray(re_ifft2_array(self.polys[b], self.fshape, tag), dtype=object)
         return out
 
+    def real_array(self):
+        return self.part_array("re_ifft2")
 
-def re_ifft2_array(poly, shape):
+    def imag_array(self):
+        return self.part_array("im_ifft2")
+
+    def __abs__(self):
+        # the magnitude of the complex spatial array: a non-linear function of the data, equal to the real part only
+        # for non-negative real results - a distinct label
+        return self.part_array("abs_ifft2")
+
+
+def re_ifft2_array(poly, shape, tag="re_ifft2"):
     out = mk(shape, "real")
     k = poly.key()
     for idx in itertools.product(*[range(s) for s in shape]):
-        out[idx] = Poly.atom(("re_ifft2", k) + idx)
+        out[idx] = Poly.atom((tag, k) + idx)
     return out
 
 
@@ -309,6 +326,10 @@ class FftDomain(SymDomain):
         self.fftns = Namespace("numpy.fft", fft2=self.fft2, ifft2=self.ifft2)
         self.np.fft = self.fftns
         self.nonneg_atoms = {("lam",)}       # documented: lam >= 0
+        self.pos_atoms = {("lam",)}          # the division clause is stated for lam > 0 (lam == 0: invertible blurs only)
+        self.minmax_args = {}
+        self.re_args = {}
+        self.div_events = []
         self._spec_aware_np()
 
     SPEC_AWARE = {"conj", "conjugate", "abs", "absolute", "real", "imag"}
@@ -412,9 +433,50 @@ class FftDomain(SymDomain):
                     arg = self.inv_args.get(a[1])
                     if arg is None or not (self.poly_nonneg(arg) or e % 2 == 0):
                         return False
-                elif head in ("smax", "smin", "swhere", "re_ifft2") or e % 2 != 0:
+                elif head in ("smax", "smin") and a in self.minmax_args:
+                    x, y = self.minmax_args[a]
+                    ok = (self.poly_nonneg(x) or self.poly_nonneg(y)) if head == "smax" else (self.poly_nonneg(x) and self.poly_nonneg(y))
+                    if not (ok or e % 2 == 0):
+                        return False
+                elif head in ("smax", "smin", "swhere", "re_ifft2", "sre", "sim") or e % 2 != 0:
                     return False
         return True
+
+    def poly_pos(self, p):
+        """syntactic certificate that a real per-frequency expression is > 0 at every frequency: non-negative, with at
+        least one monomial that is strictly positive on its own (a positive constant, a power of a declared positive scalar
+        such as lam, the inverse of a positive expression, a max with a positive operand)"""
+        if not self.poly_nonneg(p):
+            return False
+        for m, c in p.terms.items():
+            if c <= 0:
+                continue
+            if all(self._atom_pos(a) for a, _ in m):
+                return True
+        return False
+
+    def _atom_pos(self, a):
+        head = a[0] if isinstance(a, tuple) and a else None
+        if a in self.pos_atoms:
+            return True
+        if head == "inv":
+            arg = self.inv_args.get(a[1])
+            return arg is not None and self.poly_pos(arg)
+        if head in ("smax", "smin") and a in self.minmax_args:
+            x, y = self.minmax_args[a]
+            return (self.poly_pos(x) or self.poly_pos(y)) if head == "smax" else (self.poly_pos(x) and self.poly_pos(y))
+        return False
+
+    def spec_part(self, sp, which):
+        """real / imaginary part of a frequency-domain array: the identity / zero on provably real (self-conjugate)
+        expressions such as H conj(H), otherwise a distinct node"""
+        def one(p):
+            if self.conj_poly(p).same(p):
+                return p if which == "re" else Poly.const(0)
+            at = ("s" + which, p.key())
+            self.re_args[at] = p
+            return Poly.atom(at)
+        return sp._mk(_ew(one, sp.polys))
 
     def compare(self, interp, op, a, b, node):
         if isinstance(a, (Spec, SpecCond)) or isinstance(b, (Spec, SpecCond)):
@@ -505,12 +567,14 @@ class FftDomain(SymDomain):
         if isinstance(a, ISpec):
             return a.real_array()
         if isinstance(a, Spec):
-            raise Unsupported("np.real of a frequency-domain array")
+            return self.spec_part(a, "re")
         return super().np_real(a)
 
     def np_imag(self, a):
+        if isinstance(a, ISpec):
+            return a.imag_array()
         if isinstance(a, Spec):
-            raise Unsupported("np.imag of a spectrum")
+            return self.spec_part(a, "im")
         return super().np_imag(a)
 
     def getattr(self, interp, obj, attr, node=None):
@@ -519,8 +583,8 @@ class FftDomain(SymDomain):
                 return obj.shape
             if attr == "ndim":
                 return obj.ndim
-            if attr == "real" and isinstance(obj, ISpec):
-                return obj.real_array()
+            if attr in ("real", "imag"):
+                return self.np_real(obj) if attr == "real" else self.np_imag(obj)
             if attr in ("conj", "conjugate") and not isinstance(obj, ISpec):
                 return obj.conjugate
             raise Unsupported(f"attribute {attr!r} of a spectrum")
@@ -828,6 +892,8 @@ def run(ctx):
                "numpy indexing / roll / reshape / stack semantics are numpy's own (object arrays of symbolic labels)",
                "convolution theorem (library fact): ifft2(fft2(x) * fft2(h)) is the circular convolution of x with h",
                "np.linalg.pinv returns the Moore-Penrose pseudo-inverse of its argument (labelled output)",
+               "the 'no division by a spectrum that may vanish' clause is stated for lam > 0 (documented regularised use); "
+               "for lam == 0 the property only speaks about invertible blurs",
                "scipy.sparse.csr_matrix((data,(rows,cols))) sums duplicate entries",
                "bounded-exhaustive: D1/D4 verdicts hold for the stated image/kernel size box",
                "build_psf_motion: tap counts are non-negative, so 'sum is not > 0' means the array is all zero")
@@ -907,10 +973,37 @@ def run(ctx):
         Hh = df.F(padI)
         Hc = df.conj_poly(Hh)
         cfg = f"image {H}x{W} kernel {kH}x{kW}"
+
+        def describe(p, df=df, Hh=Hh, Hc=Hc):
+            names = {}
+            for a in p.atoms():
+                if Poly.atom(a).same(Hh):
+                    names[a] = Poly.atom("H")
+                elif Poly.atom(a).same(Hc):
+                    names[a] = Poly.atom("conj(H)")
+                elif isinstance(a, tuple) and a and a[0] in ("F", "Fc"):
+                    names[a] = Poly.atom("F(data)" if a[0] == "F" else "conj(F(data))")
+                elif isinstance(a, tuple) and a and a[0] == "absS":
+                    names[a] = Poly.atom("|" + describe(df.abs_args[a[1]]) + "|") if a[1] in df.abs_args else Poly.atom("|.|")
+            return short(p.subs(names) if names else p, 160)
+
+        def division_clause(f, cfg, df=df):
+            """no division by a spectrum that may vanish: exact zeros of the transfer function are in the domain (box /
+            motion kernels whose length divides the image size), and 0 * (B / 0) is NaN for the whole image"""
+            bad = [p for (p, ok) in df.div_events if not ok]
+            ctx.ob(R_FFT, f"{f.name}: every spectral division has a denominator that cannot vanish (lam > 0) [{cfg}]", not bad,
+                   "a per-frequency division has a denominator that vanishes at a spectral zero of the PSF (not bounded away "
+                   "from zero by lam): NaN/inf at exact zeros of the transfer function although the Tikhonov system is "
+                   "uniquely solvable", where=f.where, construct=f"{f.name}: division by a spectrum that may vanish",
+                   loc=f.loc(), detail=f"{cfg}: {len(bad)} of {len(df.div_events)} division(s); first denominator: "
+                                       f"{describe(bad[0]) if bad else None}")
+
         # ---- blur
         Q = sym_real("q", (H, W, 4))
         Q0 = Q.copy()
+        del df.div_events[:]
         st, out = run_guarded(lambda: itf.run(f_blur, [Q, k]))
+        division_clause(f_blur, cfg)
         okshape = st == "ok" and isinstance(out, SymArr) and out.shape == (H, W, 4)
         ctx.ob(R_FFT, f"apply_blur_fft returns (H,W,4) [{cfg}]", okshape, f"blur fails / wrong shape: {short(out, 200)}",
                where=f_blur.where, construct="apply_blur_fft: result shape", loc=f_blur.loc())
@@ -931,7 +1024,9 @@ def run(ctx):
         # ---- restoration
         B = sym_real("b", (H, W, 4))
         B0 = B.copy()
+        del df.div_events[:]
         st, out = run_guarded(lambda: itf.run(f_rfft, [B, k, lam]))
+        division_clause(f_rfft, cfg)
         okshape = st == "ok" and isinstance(out, SymArr) and out.shape == (H, W, 4)
         ctx.ob(R_FFT, f"qslst_restore_fft returns (H,W,4) [{cfg}]", okshape, f"restoration fails / wrong shape: {short(out, 200)}",
                where=f_rfft.where, construct="qslst_restore_fft: result shape", loc=f_rfft.loc())
@@ -951,7 +1046,7 @@ def run(ctx):
         ctx.ob(R_FFT, f"qslst_restore_fft refuses a non-periodic boundary [{cfg}]", st == "raise" and out.exc_name == "AssertionError",
                "a boundary condition other than 'periodic' is accepted by the BCCB/FFT path", where=f_rfft.where,
                construct="qslst_restore_fft: boundary not checked", loc=f_rfft.loc())
-    ctx.require_instances(R_FFT, 3 * 14)
+    ctx.require_instances(R_FFT, 3 * 16)
 
     # ------------------------------------------------------------------ D3 matrix path
     mat_cases = [(1, 1), (1, 2), (2, 1), (2, 2), (2, 3)] + ([(3, 2), (3, 3), (1, 4)] if ctx.thorough else [])
